@@ -1,6 +1,7 @@
 package statedb
 
 import (
+	"bytes"
 	"fmt"
 	"math/big"
 	"sort"
@@ -436,6 +437,36 @@ func (s *StateDB) RevertToSnapshot(revid int) {
 	// Replay the journal to undo changes and remove invalidated snapshots
 	s.journal.Revert(s, snapshot)
 	s.validRevisions = s.validRevisions[:idx]
+}
+
+// RefreshStorage re-reads every contract storage slot cached by the state objects from the keeper.
+// A precompile that runs Cosmos messages may execute EVM calls of its own on the same context (the
+// ERC20 conversion behind an IBC transfer): those write straight to the store, which leaves the
+// cached values stale. Everything cached was flushed by the Commit preceding the precompile call,
+// so a slot that differs from the store was written by such a nested execution: take its value and
+// remember it as already persisted.
+func (s *StateDB) RefreshStorage() {
+	addrs := make([]common.Address, 0, len(s.stateObjects))
+	for addr := range s.stateObjects {
+		addrs = append(addrs, addr)
+	}
+	sort.Slice(addrs, func(i, j int) bool {
+		return bytes.Compare(addrs[i].Bytes(), addrs[j].Bytes()) < 0
+	})
+	for _, addr := range addrs {
+		obj := s.stateObjects[addr]
+		if obj.suicided {
+			continue
+		}
+		// every dirty slot has been read first, so originStorage holds all cached keys
+		for _, key := range obj.originStorage.SortedKeys() {
+			stored := s.keeper.GetState(s.ctx, addr, key)
+			if stored != obj.GetState(key) {
+				obj.dirtyStorage[key] = stored
+				obj.transientStorage[key] = stored
+			}
+		}
+	}
 }
 
 // Commit writes the dirty states to keeper
